@@ -1227,6 +1227,10 @@ class Evaluator:
             return self._construct(f.cls, args, kwargs)
         if isinstance(f, LibRef):
             return self._lib_call(f.name, args, kwargs)
+        if isinstance(f, NativeObj) and "__call__" in f.methods:
+            w = model(f.methods["__call__"])
+            w._c09_takes_poison = f.poison_ok
+            return self._native(w, args, kwargs)
         if callable(f):
             return self._native(f, args, kwargs)
         raise Raised("TypeError")
